@@ -2116,6 +2116,9 @@ def serialize_tensor_into(
         # Directly copy from the tensor proto if it is available
         tensor_proto.CopyFrom(from_.raw)
         if from_.metadata_props:
+            # The copied proto already carries the original entries; replace them
+            # with the (possibly edited) metadata_props instead of appending
+            del tensor_proto.metadata_props[:]
             _serialize_metadata_props_into(tensor_proto.metadata_props, from_.metadata_props)
         return
 
